@@ -57,7 +57,7 @@ def gen(rng, tier):
     for k in range(N):
         acc = k % 4 == 3
         ds = nn.rand_dataset(rng, max_rows=7, max_points=4, ties=False)
-        while ds["n_units"] < 2 or (len(set(ds["labels"])) < 2 and rng.random() < 0.8):
+        while ds["n_units"] < 2 or ds["grouping"]["kind"] == "cand3" or (len(set(ds["labels"])) < 2 and rng.random() < 0.8):
             ds = nn.rand_dataset(rng, max_rows=7, max_points=4, ties=False)
         if acc:
             ds["utility"] = "accuracy"
